@@ -301,6 +301,40 @@ func generate(w *mon.W) {
 			w.Do(fmt.Sprint("shadow|", n, "|", variant), func(r *mon.R) { Check(cc, r) })
 		}
 	}
+	// a binding redefined from its own old value behind 0..30 lets that nothing
+	// uses (the old value is needed although no statement in between reads it);
+	// the first definition is a let or a parameter
+	for k := 0; k <= 30; k++ {
+		for variant := 0; variant < 3; variant++ {
+			c := &Case{Params: map[string]string{}, Seed: int64(k), LetParens: 1, Pos: []string{"where", "take", "extend"}[variant]}
+			if variant == 1 {
+				c.Params["lim"] = "$1"
+			} else {
+				c.Lets = append(c.Lets, LetDef{"lim", Num("5")})
+			}
+			for i := 0; i < k; i++ {
+				var x *E = Num(fmt.Sprint(300 + i))
+				if i%4 == 3 {
+					x = Bin("*", Name(fmt.Sprintf("u%d", i-1)), Num("2"))
+				}
+				c.Lets = append(c.Lets, LetDef{fmt.Sprintf("u%d", i), x})
+			}
+			c.Lets = append(c.Lets, LetDef{"lim", Bin("+", Name("lim"), Num("2"))})
+			if variant == 2 {
+				c.Lets = append(c.Lets, LetDef{"lim", Bin("*", Name("lim"), Name("lim"))})
+			}
+			switch variant {
+			case 0:
+				c.X = Bin(">", Name("ia"), Name("lim"))
+			case 1:
+				c.X = Name("lim")
+			default:
+				c.X = Bin("-", Name("lim"), Name("ia"))
+			}
+			cc := c
+			w.Do(fmt.Sprint("selfredef|", k, "|", variant), func(r *mon.R) { Check(cc, r) })
+		}
+	}
 	// binding names of every length up to a thousand characters
 	for _, L := range []int{1, 2, 7, 8, 9, 15, 16, 17, 31, 32, 33, 63, 64, 65, 127, 128, 129, 255, 256, 257, 1000} {
 		long := "n" + strings.Repeat("x", L-1)
@@ -365,7 +399,9 @@ func generate(w *mon.W) {
 			"join (U | project %a = k, k) on k", "render pie with (%a = 1)", "where %a.x == 1", "where x.%a == 1", "where %a(1) == 2", "sort by `%a`", "extend %a = %s", "project %a = %s + 1, b",
 			"join (%a) on k", "extend `%a` = 1 | extend y = `%a`"}
 		uses := []string{"where b > %s", "take %s", "extend z = %s + 1", "project z = %s, b", "top %s by b", "where f(%s) == 1", "summarize s = sum(%s) by k", "where b in (%s, 1)", "where -%s < 0",
-			"join (U) on $left.a == %s", "extend y = %s | where y == %s"}
+			"join (U) on $left.a == %s", "extend y = %s | where y == %s",
+			// the same comparison with the bound name and with the column of that name, side by side
+			"where b > %s and b > `%a`", "where b > `%a` and b > %s", "where b == %s or b == `%a` or b == %s", "extend p = %s, q = `%a`, r = %s"}
 		for ni, a := range names {
 			for ui, u := range uses {
 				for _, name := range []string{"n", "lim"} {
